@@ -459,6 +459,57 @@ func vfC09Overflow(t *testing.T, res *vfResult, sn string) {
 		res.Violate("C09:overflow:no-failure:"+sn, "no Write failed although the sequence space was exhausted", nil)
 	}
 	res.NonTrivial("overflow/" + sn)
+	// the exhausted session exported and imported again (DTLS 1.2): it stays exhausted, no number is used twice
+	if !cfg.Is13() {
+		used := map[uint64]bool{}
+		for _, w := range n.Emissions("c") {
+			recs, _ := vfParseDatagram(w.Data, 0)
+			for _, r := range recs {
+				if !r.Unified && r.Epoch == ep {
+					used[r.Seq] = true
+				}
+			}
+		}
+		if st, ok := p.C.Conn.ConnectionState(); ok {
+			if raw, err := st.MarshalBinary(); err == nil {
+				var st2 State
+				if err := st2.UnmarshalBinary(raw); err == nil {
+					ep2 := n.Endpoint("c2", "10.0.0.3:3333")
+					n.Alias("10.0.0.3:3333", ep2)
+					if rc, err := ResumeWithOptions(&st2, ep2, vfAddr(vfServerAddr)); err == nil {
+						mark := n.LogLen()
+						okAfter := 0
+						for k := 0; k < 4; k++ {
+							if _, err := rc.Write([]byte(fmt.Sprintf("ovf-resumed-%d", k))); err == nil {
+								okAfter++
+							}
+						}
+						synctest.Wait()
+						for _, w := range n.LogSince(mark) {
+							if w.Deliver || w.From != "c2" {
+								continue
+							}
+							recs, _ := vfParseDatagram(w.Data, 0)
+							for _, r := range recs {
+								if !r.Unified && r.Epoch == ep && r.Type == 23 {
+									// the counter had passed 2^48: every number below it counts as used, whatever this
+									// run (which jumped the counter forward) really emitted
+									res.Violate("C09:overflow:write-succeeds-after-overflow:after-export:"+sn, fmt.Sprintf("the exhausted session, exported and resumed, emitted an application record (epoch %d, seq %d); %d writes succeeded after the import", ep, r.Seq, okAfter), nil)
+								}
+								if !r.Unified && r.Epoch == ep && (used[r.Seq] || r.Seq >= 1<<48) {
+									res.Violate("C09:overflow:number-reused-after-export:"+sn, fmt.Sprintf("the exhausted session, exported and resumed, emitted (epoch %d, seq %d), a number already used (or beyond 2^48); %d writes succeeded after the import", ep, r.Seq, okAfter), nil)
+								}
+							}
+						}
+						res.Count("overflow_export_import_checked", 1)
+						res.Count("overflow_writes_ok_after_import", int64(okAfter))
+						_ = ep2.Close()
+						_ = rc.Close()
+					}
+				}
+			}
+		}
+	}
 	p.Close()
 	synctest.Wait()
 }
